@@ -91,6 +91,7 @@ impl Stats {
         self.harness_errors.extend(o.harness_errors);
         self.panics.extend(o.panics);
         self.deadline_hit |= o.deadline_hit;
+        self.per_job.extend(o.per_job);
     }
 }
 
@@ -133,6 +134,12 @@ fn now_ms() -> u64 {
 }
 
 pub const WATCHDOG_MS: u64 = 30_000;
+
+/// debugging aid: VERIF_HUNT=<substring of an outcome tuple> dumps up to five matching scenarios
+fn hunt() -> Option<&'static String> {
+    static H: std::sync::OnceLock<Option<String>> = std::sync::OnceLock::new();
+    H.get_or_init(|| std::env::var("VERIF_HUNT").ok()).as_ref()
+}
 
 /// what to do when a run hangs: (scenario text) -> !
 pub type HangHandler = dyn Fn(&str) + Sync + Send;
@@ -244,7 +251,18 @@ fn account(
         if let Some(t) = a.put_txn(pi) {
             let r = t.at_dst.first_finished().map(|(_, f)| format!("{:?}/{:?}/{:?}", f.report.condition, f.delivery_code, f.file_status)).unwrap_or_else(|| "-".into());
             let s = t.at_src.first_finished().map(|(_, f)| format!("{:?}/{:?}/{:?}", f.report.condition, f.delivery_code, f.file_status)).unwrap_or_else(|| "-".into());
-            *st.outcomes.entry(format!("recv={} send={}", r, s)).or_insert(0) += 1;
+            let key = format!("recv={} send={}", r, s);
+            if let Some(h) = hunt() {
+                if key.contains(h.as_str()) {
+                    static N: AtomicUsize = AtomicUsize::new(0);
+                    let k = N.fetch_add(1, Ordering::Relaxed);
+                    if k < 5 {
+                        let _ = std::fs::write(format!("/dev/shm/hunt-{}.replay", k), sc.to_text());
+                        eprintln!("HUNT: {} -> /dev/shm/hunt-{}.replay", key, k);
+                    }
+                }
+            }
+            *st.outcomes.entry(key).or_insert(0) += 1;
         }
     }
     let text_len = sc.script.len();
